@@ -86,6 +86,8 @@ def check(rep, tier, seed):
             bad.append((C.codec_line(c), a[:120] + " (format: " + w + ")",
                         "BigDecimal is not written as the String of its decimal text"))
     rep.coverage["bigdecimal_layout_cases"] = len(bcases)
+    # (3c) well-formed encodings with four-byte chunk sizes (chunks beyond 16 MiB) must be read back
+    C1.big_stream(rep, harness, C.workdir("C04big"), C1.size_boundary_cases(rng)[1][-3:])
     # (4) the golden file written by Scala desert (desert_macro/golden/dataset1.bin): the declarations of
     # desert_macro/tests/golden.rs in the case language; the reference decoder and the implementation must read the
     # same value from it, and the reference ENCODER must reproduce the Scala bytes exactly from that value
